@@ -26,7 +26,12 @@ RULE = ("seeded generator of relay histories: (a) copyTwoWayEx/copyTwoWay of the
         "(1 byte .. 40000, around bufio's 4096) arrives in the same segment as the tail of the request (fast open) or later; the harness parses "
         "it with quicvarint.Read + protocol.ReadTCPRequest and relays from the same stream; cross-relay histories (xrelay): 2-4 relays in ONE bubble "
         "sharing the real copyBufPool (GOMAXPROCS 1, so the pool's hand-out order is reproducible), each with its own ends, logger and payload pattern "
-        "(distinct multipliers): directed ones - a relay ends in one direction (EOF / error / veto / failed write) while its other direction is parked in "
+        "(distinct multipliers); end-to-end class (30 per quick run): the request in front of the client stream is the buffer the real WriteTCPRequest writes (padding as drawn), "
+        "the dial is faked (ok, or an error with a message of 1..2048 bytes), the response is written to the fake stream by the real WriteTCPResponse, then relay and teardown; "
+        "the client half runs in package client: the real clientImpl.TCP / tcpConn.Read (fast open on/off, buffers of 1..32768 bytes) on a real loopback QUIC stream whose peer parses the "
+        "request with the real reader and serves exactly the bytes the server half wrote (response frame ++ Down sink), whole or cut inside the frame / inside the data, in scripted write sizes, "
+        "ended by FIN or reset; both halves are joined into one case and evaluated against the composed model of model/C06_E2E.v (request phase over the script of the client stream, "
+        "Reads of both loops against the scripts of their sources, response frame, stream_out, client_io); directed ones - a relay ends in one direction (EOF / error / veto / failed write) while its other direction is parked in "
         "Read, late bytes reach that Read between the return of the copy and the Close of the ends, and meanwhile 1-3 relays started after the return hold a "
         "chunk of either direction inside LogTraffic or a slow Write - and undirected ones (random relay histories started within 4 ms); every relay is judged "
         "on its own log and sinks by the single-relay verdict, the merged log (with the identity of the memory handed to every Read / Write) is replayed "
@@ -39,10 +44,12 @@ RULE = ("seeded generator of relay histories: (a) copyTwoWayEx/copyTwoWay of the
 ASSUMPTIONS = [
     "sinks obey the io.Writer contract (n < len(p) only with a non-nil error): copyBufferLog ignores the count (hypothesis wok of the prefix/accounting theorems; quic-go streams and net.Conn do)",
     "QUIC stream reliability/ordering and QStream.Close = CancelRead + FIN delivering already written bytes (quic-go, not modelled)",
-    "the TCPResponse codec round-trips (Section hypothesis resp_roundtrip of the client clause; property C04)",
-    "ReadTCPRequest takes exactly the request frame off the stream (hypothesis `exact` of the two client-payload theorems; property C04); "
-    "C06_request_reader_must_not_read_ahead shows it is needed, and the request-phase cases of level (a) and the fast-open cases of "
-    "level (b) observe it on every run",
+    "the end-to-end theorems (C06_end_to_end, C06_*_real, C06_client_view_real) carry NO codec hypothesis: they are composed with the C04 round-trip theorems over the real codec model; "
+    "their hypotheses are about the streams: the request frame (resp. response frame) and the first `early` bytes arrive without an error inside them, in any chunking "
+    "(an error inside the frame region = the stream ended before the frame arrived; then the reader fails - observed by the cut-inside-the-frame cases, not proved), "
+    "and the client's stream carries a prefix of what the server wrote (QUIC ordering); the older abstract-codec theorems (C06_client_view, "
+    "C06_target_*_client_payload) are kept, with C06_request_reader_must_not_read_ahead showing their hypothesis is needed",
+    "a dial error message longer than MaxMessageLength (2048) bytes is outside C06_dial_error_end_to_end: the client rejects such a response as a protocol error",
     "no request hook intercepts the connection (as in the property text); EventLogger/TraceStream calls are not modelled",
 ]
 TRUSTED = ["modelled rather than verified: core/server/copy.go, the hook-less path of handleTCPRequest (server.go:271-343), client.go TCP()/tcpConn.Read "
@@ -50,6 +57,10 @@ TRUSTED = ["modelled rather than verified: core/server/copy.go, the hook-less pa
            "the frame type, server.go:276 protocol.ReadTCPRequest; the callee is the real one) in the harness; "
            "level (b) runs the real handleTCPRequest/client.TCP end to end but is judged by the harness verdict only (its runs are not replayed "
            "against the LTS)",
+           "end-to-end class of level (a): server.go:306-323 (failure response + Close, or the success response) transcribed in the harness around the real WriteTCPResponse; "
+           "the client half uses the real TCP()/tcpConn.Read on a clientImpl built from a raw quic-go connection (no hysteria handshake), its peer is a raw quic-go listener; "
+           "the chunking a real QUIC stream presents is not controlled, the model is evaluated on one two-chunk script of the same bytes (the outcome is chunking-independent by C06_client_view_real); "
+           "a reset may overtake written bytes, so reset-ended cases are compared up to an earlier reset; python parses the two frames to hand address/message/padding to Coq, which rebuilds the frames and compares length and digest",
            "level (a) sources/sinks/logger are in-memory fakes inside a testing/synctest bubble; written chunks above 2 KiB are compared with the "
            "model through the (offset, length) descriptor the harness verified byte by byte, smaller ones through a 32-bit digest",
            "cross-relay runs: buffer identity = address of the slice handed to Read / Write, interned by the harness; sync.Pool with GOMAXPROCS(1); "
@@ -720,6 +731,10 @@ LEVEL_TEXT = ("Machine-checked Coq theorems over a labelled transition system tr
               "the first returned error is errDisconnect; a dial error writes the failure response with the server's message and relays nothing; "
               "client view (fast open on/off) over an abstract response codec; over an abstract request codec that consumes exactly its frame, "
               "the target holds a prefix of the payload the client wrote behind the request and all of it when Up returns nil; "
+              "the same END TO END over the real codecs of C04 with no codec hypothesis (model/C06_E2E.v: the four streams are io.Reader scripts, every chunking, reads spanning the frame boundary): "
+              "the server's request phase leaves exactly the bytes behind the frame, on every run the stream carries the response frame followed by exactly the Down sink, "
+              "what the target receives is a prefix of what the client application wrote (whole when the client finishes first) and what the application reads - TCP()/tcpConn.Read with fast open on or off, any buffer sizes - "
+              "is a prefix of what the target sent (whole when the target finishes first, nothing is lost and the application reads to the end); a failed dial reaches the application as DialError msg and relays nothing; "
               "isolation between relays: in the world of all copy loops over a memory of pooled buffers (Read stores into the loop's buffer, Write hands out what the buffer "
               "holds then) a buffer has at most one running owner, so every loop's behaviour is a run of the one-loop LTS and its sink holds a prefix of ITS source, "
               "which fails as soon as a buffer may return to the pool before its loop has finished; the client's Close ends the send side with FIN whatever the "
